@@ -296,8 +296,19 @@ def _valid_code_predicate(c: Ctx, r: RuleResult) -> None:
                 for y in ast.walk(v):
                     if isinstance(y, ast.Constant) and isinstance(y.value, int) and not isinstance(y.value, bool):
                         consts.add(y.value)
+    # helper predicates of the same module the function calls (`_inRanges(c, TABLE)`): their constants count too
+    helpers: dict[str, ast.FunctionDef] = {}
+    for x in ast.walk(f.node):
+        if isinstance(x, ast.Call) and isinstance(x.func, ast.Name):
+            d = f.module.defs.get(x.func.id)
+            if isinstance(d, ast.FunctionDef) and d is not f.node:
+                helpers[x.func.id] = d
+                for y in ast.walk(d):
+                    if isinstance(y, ast.Constant) and isinstance(y.value, int) and not isinstance(y.value, bool):
+                        consts.add(y.value)
     cuts = sorted(consts | {0xD800, 0xE000, 0x110000})
     INF = 1 << 40
+    alias: set[str] = set()          # parameters of a helper being evaluated that stand for the analysed variable
 
     def atoms(lo: int, hi: int) -> list[tuple[int, int]]:
         pts = sorted({lo, hi + 1} | {k for k in cuts if lo < k <= hi} | {k + 1 for k in cuts if lo < k + 1 <= hi})
@@ -309,7 +320,7 @@ def _valid_code_predicate(c: Ctx, r: RuleResult) -> None:
 
     def ival(e: ast.AST, iv: tuple[int, int]):
         """interval of an int expression, or None (unknown)"""
-        if isinstance(e, ast.Name) and e.id == pname:
+        if isinstance(e, ast.Name) and (e.id == pname or e.id in alias):
             return iv
         if isinstance(e, ast.Name) and e.id in cenv:
             return (cenv[e.id], cenv[e.id])
@@ -385,6 +396,28 @@ def _valid_code_predicate(c: Ctx, r: RuleResult) -> None:
                     acc = B
                 left = right
             return acc
+        if isinstance(e, ast.Call) and isinstance(e.func, ast.Name) and e.func.id in helpers and not e.keywords and len(alias) < 3:
+            h = helpers[e.func.id]
+            ps = [a.arg for a in h.args.args]
+            if len(ps) == len(e.args):
+                saved_alias, saved_tab, saved_c = set(alias), dict(tables), dict(cenv)
+                ok_bind = True
+                for pn, a in zip(ps, e.args):
+                    if isinstance(a, ast.Name) and (a.id == pname or a.id in saved_alias):
+                        alias.add(pn)
+                    elif isinstance(a, ast.Name) and a.id in saved_tab:
+                        tables[pn] = saved_tab[a.id]
+                    elif isinstance(a, (ast.Tuple, ast.List)):
+                        tables[pn] = list(a.elts)
+                    elif isinstance(a, ast.Constant) and isinstance(a.value, int) and not isinstance(a.value, bool):
+                        cenv[pn] = a.value
+                    else:
+                        ok_bind = False
+                res_h = run(h.body, iv) if ok_bind else frozenset({True, False})
+                alias.clear(); alias.update(saved_alias)
+                tables.clear(); tables.update(saved_tab)
+                cenv.clear(); cenv.update(saved_c)
+                return frozenset(bool(v) for v in res_h)          # falling off the end returns None: falsy
         if isinstance(e, ast.Call) and isinstance(e.func, ast.Name) and e.func.id in ("any", "all") and len(e.args) == 1 \
                 and isinstance(e.args[0], ast.GeneratorExp) and len(e.args[0].generators) == 1:
             g = e.args[0].generators[0]
@@ -741,6 +774,48 @@ def rule_intarg(c: Ctx) -> RuleResult:
     return r
 
 
+def _flag_consistent_defs(c: Ctx, f: Func, ds, use_at: ast.AST) -> list:
+    """Reaching definitions that can actually be live at `use_at`: when the use sits in one arm of a conditional on a stable
+    flag (`x if numeric else y`, `if numeric: ...`), definitions made in the *other* arm of an `if` on the same flag are not
+    (`if numeric: m = A.search(..) else: m = B.search(..)` ... `f(m) if numeric else g(m)`)."""
+    ds = list(ds)
+    parents = f.module.parents
+    # polarity of single-name tests known at the use
+    known: dict[str, bool] = {}
+    q, ch = parents.get(use_at), use_at
+    while q is not None and q is not f.node:
+        test, arm = None, None
+        if isinstance(q, ast.IfExp):
+            test, arm = q.test, (True if ch is q.body else False if ch is q.orelse else None)
+        elif isinstance(q, ast.If):
+            test, arm = q.test, (True if any(ch is x for x in q.body) else False if any(ch is x for x in q.orelse) else None)
+        if test is not None and arm is not None:
+            neg = False
+            while isinstance(test, ast.UnaryOp) and isinstance(test.op, ast.Not):
+                test, neg = test.operand, not neg
+            if isinstance(test, ast.Name) and _flag_stable(c, f, test, None, use_at):
+                known[test.id] = arm != neg
+        ch, q = q, parents.get(q)
+    if not known:
+        return ds
+    out = []
+    for d in ds:
+        live = True
+        q, ch = parents.get(d.stmt) if d.stmt is not None else None, d.stmt
+        while q is not None and q is not f.node and live:
+            if isinstance(q, ast.If):
+                test, neg = q.test, False
+                while isinstance(test, ast.UnaryOp) and isinstance(test.op, ast.Not):
+                    test, neg = test.operand, not neg
+                arm = True if any(ch is x for x in q.body) else False if any(ch is x for x in q.orelse) else None
+                if isinstance(test, ast.Name) and test.id in known and arm is not None and (arm != neg) != known[test.id]:
+                    live = False
+            ch, q = q, parents.get(q)
+        if live:
+            out.append(d)
+    return out or ds
+
+
 def _flag_stable(c: Ctx, f: Func, test: ast.AST, def_stmt: ast.AST | None, use_at: ast.AST) -> bool:
     """The names the selecting test mentions have one definition each in the function (so the test has the same value where the
     pattern was selected and where the match is used)."""
@@ -768,7 +843,7 @@ def _int_source(c: Ctx, f: Func, e: ast.AST, at: ast.AST, rd: Reaching, regexes:
     if isinstance(e, ast.Call) and isinstance(e.func, ast.Attribute) and e.func.attr == "group":
         m = e.func.value
         if isinstance(m, ast.Name):
-            for d in rd.at_ast(at, m.id):
+            for d in _flag_consistent_defs(c, f, rd.at_ast(at, m.id), use_at):
                 v = d.value
                 if v is None or not (isinstance(v, ast.Call) and isinstance(v.func, ast.Attribute) and isinstance(v.func.value, (ast.Name, ast.IfExp))):
                     return f"!group of `{m.id}`, which is not the result of a module-level compiled pattern"
